@@ -27,17 +27,15 @@ func (sc *chainScen) all() []*ChainReq {
 func genChainScen(x *Ctx, k chainKnobs, minClients, maxClients, maxReqs int) *chainScen {
 	tp := x.Tape
 	sc := &chainScen{Cfg: genChainCfg(tp, k)}
-	n := tp.Range(minClients, maxClients)
 	id := 0
-	for c := 0; c < n; c++ {
+	tp.Repeat(minClients, maxClients, 600, func(int) {
 		var reqs []*ChainReq
-		m := tp.Range(1, maxReqs)
-		for i := 0; i < m; i++ {
+		tp.Repeat(1, maxReqs, 550, func(int) {
 			id++
 			reqs = append(reqs, genChainReq(tp, sc.Cfg, k, id))
-		}
+		})
 		sc.Clients = append(sc.Clients, reqs)
-	}
+	})
 	return sc
 }
 
@@ -88,7 +86,7 @@ func (cfg *ChainCfg) handlerSees(r *ChainReq) (attrs, ctx, gen, params, sel stri
 }
 
 func runC06(x *Ctx) {
-	k := chainKnobs{maxFilters: 3, maxCF: 7, twoServices: true, richFilters: true, encoding: false, panics: 0, errors: true, plain: true, nested: false, maxPayload: 300, filterWrites: true}
+	k := chainKnobs{maxFilters: 3, maxCF: 7, twoServices: true, richFilters: true, encoding: false, panics: 120, wfaults: 60, errors: true, plain: true, nested: false, maxPayload: 300, filterWrites: true}
 	maxClients, maxReqs := 4, 3
 	if x.Thorough() {
 		maxClients, maxReqs = 5, 6
